@@ -265,6 +265,8 @@ pub trait DSet: Sized {
                                 if self.degrees_match(di, ei) {
                                     queue.push_back((di, ei));
                                 } else {
+                                    #[cfg(feature = "verif")]
+                                    crate::verif_hooks::hit("fold.rejected");
                                     return None;
                                 }
                             }
@@ -273,6 +275,8 @@ pub trait DSet: Sized {
                 }
             }
 
+            #[cfg(feature = "verif")]
+            crate::verif_hooks::hit("fold.succeeded");
             Some(p)
         }
     }
